@@ -10,6 +10,7 @@
 #define MC_ALLOCFAULT_IMPL
 #include "mc/allocfault.h"
 #include "mc/harness.h"
+#include "ref/payloads.h"
 #include "ref/reassembly.h"
 #include "ref/wire.h"
 
@@ -520,13 +521,13 @@ static void runMergeTask(W& w, const MergeTask& t, char oracle)
 
 // ---------------------------------------------------------------------------------------------
 // C17 alphabet (state-relative)
-constexpr int SYM_PER_EP = 27;
+constexpr int SYM_PER_EP = 30;
 // endpoint D takes part with a reduced symbol set {U, F, I, L, payload-type 0}
 constexpr int ND = 5;
 static const int kDKinds[ND] = {0, 2, 5, 6, 12};
 constexpr int EPLESS = 3 * SYM_PER_EP + ND;   // first endpoint-less symbol
 constexpr int NSYM = EPLESS + 3;
-static const char* kSymName[SYM_PER_EP] = {"U", "UU", "F", "Ft", "F2", "I", "L", "Ib", "Lb", "Lv", "Lt", "It", "Z", "E", "O", "H", "UF", "P", "UI", "UL", "P1", "T0", "L0", "Z0", "Id", "Ld", "Ld0"};
+static const char* kSymName[SYM_PER_EP] = {"U", "UU", "F", "Ft", "F2", "I", "L", "Ib", "Lb", "Lv", "Lt", "It", "Z", "E", "O", "H", "UF", "P", "UI", "UL", "P1", "T0", "L0", "Z0", "Id", "Ld", "Ld0", "Sh", "Sl", "Ir"};
 
 static std::string symName(int sym)
 {
@@ -670,6 +671,23 @@ static Bytes symbolFrame(int sym, const ref::ReassemblyModel& m, bool& isNull, i
         case 24: fh.seq = 1; fh.version = 1; fh.msgType = 0; return ref::buildFrame(fh, {seg(ref::SEG_MID, 5, 25)});
         case 25: fh.seq = 1; fh.version = 1; fh.msgType = 0; return ref::buildFrame(fh, {seg(ref::SEG_LAST, 5, 26)});
         case 26: fh.seq = 1; fh.version = 1; fh.msgType = 0; return ref::buildFrame(fh, {seg(ref::SEG_LAST, 0, 27)});
+        // the intermediary segment of symbol I once more, byte for byte, with the counter the open message saw LAST (a frame duplicated
+        // on a redundant link): not the next segment, so it ends the message like any other out-of-sequence continuation
+        case 29: fh.seq = (uint16_t) (next - 1); fh.version = over; fh.msgType = otyp; return ref::buildFrame(fh, {seg(ref::SEG_MID, 3, 7)});
+        // unsegmented, well-formed capture-module status messages whose CONTENT tells a story (uptime high, then low as after a restart of
+        // the device; clock identity changing): what a message says never changes what the decoder does with other messages
+        case 27:
+        case 28:
+        {
+            ref::CmF c;
+            c.uptime = k == 27 ? 0x0000010000000000ull : 5;
+            c.gmIdentity = k == 27 ? 0x1122334455667788ull : 0;
+            c.gmClockQuality = k == 27 ? 7 : 0;
+            c.s[0] = ref::strSection("dev"); c.s[1] = ref::strSection(k == 27 ? "sn1" : "sn2"); c.s[2] = ref::strSection("hw"); c.s[3] = ref::strSection("sw");
+            fh.seq = (uint16_t) (60 + k);
+            fh.msgType = ref::MT_STATUS;
+            return ref::buildFrame(fh, {ref::mkMsg(ref::PT_CM, ref::cmPayload(c), 0, k == 27 ? 0x900 : 0x100, 0x0042)});
+        }
         case 18: fh.seq = next; fh.version = over; fh.msgType = otyp; return ref::buildFrame(fh, {seg(0, 2, 20), seg(ref::SEG_MID, 3, 21)});
         case 19: fh.seq = next; fh.version = over; fh.msgType = otyp; return ref::buildFrame(fh, {seg(0, 2, 22), seg(ref::SEG_LAST, 2, 23)});
         default:
@@ -713,6 +731,9 @@ static std::vector<int> sharpAlphabet()
     a.push_back(0 * SYM_PER_EP + 21);   // truncated TECMP-like buffer carrying A's ids
     a.push_back(0 * SYM_PER_EP + 22);   // zero-length last segment of A
     a.push_back(0 * SYM_PER_EP + 25);   // last segment of A fitting a default-constructed entry
+    a.push_back(0 * SYM_PER_EP + 29);   // the intermediary segment of A repeated verbatim
+    a.push_back(0 * SYM_PER_EP + 27);   // status messages of A: uptime high / low
+    a.push_back(0 * SYM_PER_EP + 28);
     for (int i = 0; i < ND; ++i)
         a.push_back(3 * SYM_PER_EP + i);
     return a;
@@ -897,9 +918,9 @@ static void fanOut(W& w, char oracle, int n, int order)
     auto feed = [&](int i, bool last, int pos) {
         Bytes f = frame(i, last);
         std::string where = fmt("frame %d (%s segment of endpoint #%d of %d)", pos, last ? "last" : "first", i, n);
-        // the pending-table dump costs O(N^2) per call (sorted copy of the whole table): above 1100 endpoints the invariant is
+        // the pending-table dump costs O(N^2) per call (sorted copy of the whole table): above 600 endpoints the invariant is
         // evaluated at 48 (above 5000 endpoints: 12) evenly spaced positions and behind the last frame instead of behind every frame
-        const bool judgeHere = oracle != 'P' || n <= 1100 || pos % std::max(1, 2 * n / (n <= 5000 ? 48 : 12)) == 0 || pos == 2 * n - 1;
+        const bool judgeHere = oracle != 'P' || n <= 600 || pos % std::max(1, 2 * n / (n <= 5000 ? 48 : 12)) == 0 || pos == 2 * n - 1;
         auto got = step(w, s, f, false, -1, oracle == 'S' || !judgeHere ? 'n' : oracle, where);
         if (oracle == 'S')
         {
@@ -1592,7 +1613,7 @@ int main(int argc, char** argv)
             run.round(fmt("long gaps: a 3-segment message with N frames of other traffic between its segments, N from %zu sizes up to %d x 5 kinds of filler traffic", gaps.size(), gaps.back()),
                       gaps.size() * 5, [&, gaps](W& w, uint64_t o) {
                           int n = gaps[o / 5], kind = (int) (o % 5);
-                          if (!thorough && n > 10000 && kind > 2)
+                          if (!thorough && n > 10000 && (kind > 2 || (kind > 0 && n != 65536)))
                               return;
                           auto desc = [&] { return fmt("k=gap;n=%d;kind=%d", n, kind); };
                           if (!w.begin_case(desc))
